@@ -761,8 +761,10 @@ impl Add for Geonum {
 
         // compute result magnitude using cosine rule for rotation interference
         let angle_diff = angle2 - angle1;
+        // rounding can push the radicand just below zero under near-total cancellation
         let result_mag =
             (self.mag.powi(2) + other.mag.powi(2) + 2.0 * self.mag * other.mag * angle_diff.cos())
+                .max(0.0)
                 .sqrt();
 
         // combine transformation histories
